@@ -183,7 +183,7 @@ def passthrough_tree(m):
     return files
 
 
-PASS_OPTS = [dict(), dict(atol="1e-3"), dict(atol="y:1e-3"), dict(atol="x:1e-3"), dict(include_fields=["x"]),
+PASS_OPTS = [dict(), dict(atol="1e-3"), dict(atol="y:1e-3"), dict(atol="x:1e-3"), dict(atol="1e-3*max"), dict(atol="y:1e-5*max"), dict(include_fields=["x"]),
              dict(include_fields=["y"]), dict(no_reorder=True), dict(no_orphan_removal=True), dict(no_dim_match=True),
              dict(ign_steps=True), dict(force_seq=True), dict(ign_steps=True, force_seq=True),
              dict(ign_steps=True, atol="1e-3", include_fields=["x", "p"]),
@@ -196,7 +196,7 @@ def gen_passthrough(m, rng, n_random):
     for o in PASS_OPTS:
         out.append(("p6g-passthrough", {"files": [list(f) for f in base], "opts": _opts(m, **o)}))
     keys = ["atol", "include_fields", "no_reorder", "no_orphan_removal", "no_dim_match", "ign_steps", "force_seq"]
-    vals = {"atol": ["1e-3", "y:1e-3", "1e-9"], "include_fields": [["x"], ["y"], ["p"], ["x", "p"]]}
+    vals = {"atol": ["1e-3", "y:1e-3", "1e-9", "1e-3*max"], "include_fields": [["x"], ["y"], ["p"], ["x", "p"]]}
     for _ in range(n_random):
         o = {}
         for k in keys:
@@ -248,9 +248,11 @@ def batches(ctx, m):
     rng = ctx.rng
     thorough = ctx.tier == "thorough"
     out = []
-    out += gen_forms(m, rng, ctx.scale(56, 1400))
+    # (re-runs first, spellings last: a violation that needs process state from EARLIER cases - e.g. a cache keyed by a
+    # cwd-relative directory name - is then reported first by a self-contained case with `prior` states)
+    out += gen_rerun(m, rng, ctx.scale(10, 300))
     out += gen_names(m, rng, all_opts=thorough)
     out += gen_many(m, rng, ctx.scale(2, 9), [150, 260] if not thorough else [150, 260, 400])
     out += gen_passthrough(m, rng, ctx.scale(10, 400))
-    out += gen_rerun(m, rng, ctx.scale(10, 300))
+    out += gen_forms(m, rng, ctx.scale(56, 1400))
     return out
